@@ -310,7 +310,21 @@ pub fn run(ctx: &Ctx) -> i32 {
           }
         }
       }
-      // larger delta_depth on a thinned subset (output of 4 * 2^delta cells)
+      // larger delta_depth on a thinned subset (output of 4 * 2^delta cells): every z-order
+      // implementation class is reached (delta 1..8, 9..16, 17..)
+      if d == 6 || d == 11 {
+        for &h in cells.iter().step_by(if quick { 211 } else { 53 }) {
+          for delta in [9u8, 13, 17] {
+            if d + delta > 29 || (quick && delta == 17) {
+              continue;
+            }
+            part.stratum("border-class-cells-large-delta", 1, 22);
+            if let Some(v) = check(d, h, delta, (h + delta as u64) % 2 == 0, &mut part) {
+              part.viol(v);
+            }
+          }
+        }
+      }
       if d == 10 || d == 20 || (!quick && (d == 7 || d == 15)) {
         for &h in cells.iter().step_by(17) {
           for delta in [5u8, 8] {
